@@ -16,6 +16,7 @@ import (
 
 	proto "github.com/kubewharf/kubebrain-client/api/v2rpc"
 
+	"github.com/kubewharf/kubebrain/pkg/backend"
 	"github.com/kubewharf/kubebrain/pkg/storage"
 	"github.com/kubewharf/kubebrain/pkg/verifhook"
 )
@@ -37,6 +38,9 @@ type ConcCase struct {
 	Free       bool        `json:"free,omitempty"`      // free-running (no gates)
 	PreCommit  bool        `json:"precommit,omitempty"` // also park between a transaction's reads and the engine commit
 	Faults     []ConcFault `json:"faults,omitempty"`
+	// Compactor adds one more client that compacts at the revision committed when it starts, its storage calls
+	// (record update, iterator, every delete) scheduled like everybody else's
+	Compactor bool `json:"compactor,omitempty"`
 }
 
 // ConcExpClasses are the expected-revision classes used under concurrency
@@ -61,6 +65,7 @@ type OpRec struct {
 	OwnRev                  uint64 // revision stamped on the version record of an attempt that reached storage
 	Attempts                int
 	Faulted                 bool
+	Unknown                 bool // the engine answered 'outcome unknown' to this request's commit
 }
 
 func (r *OpRec) String() string {
@@ -87,10 +92,15 @@ type ConcHistory struct {
 	Baseline   map[string]string // raw store after the prelude
 	Trace      []string
 	SafetyErr  error
-	Events     []*proto.Event
-	Overlap    bool
-	OutOfOrder bool
-	watch      <-chan []*proto.Event
+	CompactErr error
+	// UnknownFaults: some commit was answered 'outcome unknown' (the repair loop is part of the run)
+	UnknownFaults bool
+	RepairFaulted bool
+	finalState    map[string]keyState
+	Events        []*proto.Event
+	Overlap       bool
+	OutOfOrder    bool
+	watch         <-chan []*proto.Event
 }
 
 var hookMu sync.Mutex
@@ -100,6 +110,13 @@ func RunConc(c *ConcCase) (*ConcHistory, error) {
 	keys := make([]string, len(c.Keys))
 	for i, k := range c.Keys {
 		keys[i] = FullKey(k)
+	}
+	for _, f := range c.Faults {
+		if strings.HasPrefix(f.Kind, "unknown") {
+			// the harness triggers the repair step itself (deterministic), the loop's own ticker stays out of the way
+			backend.SetRetryIntervalsForVerif(0, time.Hour)
+			defer backend.SetRetryIntervalsForVerif(5*time.Second, time.Second)
+		}
 	}
 	env, err := NewSeqEnv(SeqOpts{Engine: c.Engine, Keys: keys, UseShim: true, Backend: BackendOpts{CacheSize: 1024}})
 	if err != nil {
@@ -142,10 +159,21 @@ func RunConc(c *ConcCase) (*ConcHistory, error) {
 	baseOK := len(shim.Commits)
 	shim.mu.Unlock()
 	commitFaults, iterFaults := map[int]bool{}, map[int]bool{}
+	unknownFaults := map[int]Decision{}
+	repairError := false
 	for _, f := range c.Faults {
-		if f.Kind == "commit" {
+		switch f.Kind {
+		case "commit":
 			commitFaults[f.At] = true
-		} else {
+		case "unknown-applied":
+			unknownFaults[f.At] = UncertainApplied
+			h.UnknownFaults = true
+		case "unknown-lost":
+			unknownFaults[f.At] = UncertainNotApplied
+			h.UnknownFaults = true
+		case "repair-error":
+			repairError = true
+		default:
 			iterFaults[f.At] = true
 		}
 	}
@@ -186,6 +214,17 @@ func RunConc(c *ConcCase) (*ConcHistory, error) {
 				r.Faulted = true
 				return FailNoApply
 			}
+			if d, ok := unknownFaults[ci.Seq-baseCommit]; ok {
+				r.Faulted = true
+				r.Unknown = true
+				return d
+			}
+		}
+		if ci.Client < 0 && ci.Rev != 0 && repairError {
+			// the background repair's rewrite fails once with a definite storage error
+			repairError = false
+			h.RepairFaulted = true
+			return FailNoApply
 		}
 		return Pass
 	}
@@ -219,7 +258,12 @@ func RunConc(c *ConcCase) (*ConcHistory, error) {
 		}
 		return Pass
 	}
-	defer func() { shim.OnCommit, shim.AfterCommit, shim.OnIter, shim.Gate = nil, nil, nil, nil }()
+	defer func() {
+		shim.AfterCommit, shim.OnIter, shim.Gate = nil, nil, nil
+		if !h.UnknownFaults {
+			shim.OnCommit = nil // with unknown outcomes pending, the repair fault stays armed until the repair ran
+		}
+	}()
 
 	sched := NewSched()
 	if !c.Free {
@@ -379,6 +423,18 @@ func RunConc(c *ConcCase) (*ConcHistory, error) {
 			}
 		})
 	}
+	if c.Compactor {
+		cid := len(programs)
+		shim.AttributeDeletesTo = cid
+		defer func() { shim.AttributeDeletesTo = -1 }()
+		programs = append(programs, func(ctx context.Context) {
+			if _, err := env.B.Compact(ctx, 0); err != nil {
+				recMu.Lock()
+				h.CompactErr = err
+				recMu.Unlock()
+			}
+		})
+	}
 	if c.Free {
 		var wg sync.WaitGroup
 		for i, p := range programs {
@@ -524,6 +580,9 @@ func (h *ConcHistory) CheckChain() error {
 				continue
 			}
 			if len(links[key]) == 0 {
+				if h.Case.Compactor {
+					continue
+				}
 				if b, ok := h.Baseline[string(r.Key)]; !ok || b != string(r.Val) {
 					return fmt.Errorf("index record of %q changed although no write on it was acknowledged", key)
 				}
@@ -553,11 +612,17 @@ func (h *ConcHistory) CheckChain() error {
 	for key, m := range links {
 		for rev, l := range m {
 			if !seenLink[fmt.Sprintf("%s@%d", key, rev)] {
+				if h.Case.Compactor && !(finalState[key].live && finalState[key].rev == rev) {
+					continue // a concurrent compaction may have removed superseded versions and tombstones
+				}
 				return fmt.Errorf("acknowledged write %s has no version record in the store", l)
 			}
 		}
 	}
 	for k := range h.Baseline {
+		if h.Case.Compactor {
+			break
+		}
 		found := false
 		for _, r := range raw {
 			if string(r.Key) == k {
@@ -571,8 +636,26 @@ func (h *ConcHistory) CheckChain() error {
 			}
 		}
 	}
+	// with a compaction in the mix an index record may legitimately be gone (deleted key) — but never for a live key
+	if h.Case.Compactor {
+		for _, key := range env.Keys {
+			st := finalState[key]
+			found := false
+			for _, r := range raw {
+				if bytes.Equal(r.Key, shimCoder.EncodeRevisionKey([]byte(key))) {
+					found = true
+				}
+			}
+			if st.live && !found {
+				return fmt.Errorf("%q is live (chain ends at %d) but its index record is gone after a concurrent compaction", key, st.rev)
+			}
+		}
+	}
+	h.finalState = finalState
 	// (v) a reported failed condition is justified by some state of the key inside the request's window
-	if !h.Case.Free {
+	// (a create racing with the compaction of the key's deletion record may be refused: tolerated, the statement
+	// promises normal semantics afterwards)
+	if !h.Case.Free && !h.Case.Compactor {
 		for _, r := range h.Ops {
 			if r.Outcome != "fail" {
 				continue
@@ -685,7 +768,19 @@ func (h *ConcHistory) CheckRevisions() error {
 // CollectEvents writes a fence and reads the watch up to it
 func (h *ConcHistory) CollectEvents() error {
 	env := h.Env
-	fr, err := env.B.Create(context.Background(), &proto.CreateRequest{Key: []byte(Prefix + "/zz-fence"), Value: []byte("fence")})
+	if h.UnknownFaults {
+		// let the repair of unknown-outcome writes run (twice: a failed repair is retried at the next tick)
+		for i := 0; i < 3; i++ {
+			deadline := time.Now().Add(5 * time.Second)
+			for env.B.GetCurrentRevision() < h.maxOwn() && time.Now().Before(deadline) {
+				time.Sleep(50 * time.Microsecond)
+			}
+			backend.RetryNowForVerif(env.B)
+			time.Sleep(300 * time.Microsecond)
+		}
+	}
+	// (a client id distinguishes the probe from the background repair, whose commits carry none)
+	fr, err := env.B.Create(ClientCtx(9999), &proto.CreateRequest{Key: []byte(Prefix + "/zz-fence"), Value: []byte("fence")})
 	if err != nil || !fr.Succeeded {
 		return fmt.Errorf("probe create after quiescence failed: %v %v", err, fr)
 	}
@@ -771,4 +866,40 @@ func (h *ConcHistory) Describe() string {
 		sb.WriteString("  schedule: " + strings.Join(h.Trace, " ") + "\n")
 	}
 	return sb.String()
+}
+
+// CheckWritable: every key stays writable with normal semantics — one more write per key, decided by the end state of
+// the chain computed by CheckChain (call it last: it adds writes)
+func (h *ConcHistory) CheckWritable() error {
+	env := h.Env
+	finalState := h.finalState
+	if finalState == nil {
+		return nil
+	}
+	for i, key := range env.Keys {
+		st := finalState[key]
+		var werr error
+		var ok bool
+		if st.live {
+			r, e := env.B.Update(env.Ctx, &proto.UpdateRequest{Kv: &proto.KeyValue{Key: []byte(key), Value: []byte(fmt.Sprintf("post-%d", i)), Revision: st.rev}})
+			werr, ok = e, r.GetSucceeded()
+		} else {
+			r, e := env.B.Create(env.Ctx, &proto.CreateRequest{Key: []byte(key), Value: []byte(fmt.Sprintf("post-%d", i))})
+			werr, ok = e, r.GetSucceeded()
+		}
+		if werr != nil || !ok {
+			return fmt.Errorf("after the concurrent phase %q (chain ends live=%v rev=%d) rejects a write with the right expectation: succeeded=%v err=%v", key, st.live, st.rev, ok, werr)
+		}
+	}
+	return nil
+}
+
+func (h *ConcHistory) maxOwn() uint64 {
+	var mx uint64
+	for _, r := range h.Ops {
+		if r.OwnRev > mx {
+			mx = r.OwnRev
+		}
+	}
+	return mx
 }
